@@ -278,6 +278,38 @@ def replay(iset, memarch, nregions, inputs, ob):
                     diff['cpsr.AIF'] = ((c0 >> 6) & 7, (c1 >> 6) & 7)
                 lines.append('privileged leaves changed from User mode: %s' % {k: (_h(a), _h(b)) for k, (a, b) in diff.items()})
                 bad = bool(diff)
+    elif kind in ('decode.class', 'post', 'post.unpred'):
+        from spec import encodings as ENC
+        from spec import stepspec as SS
+        kname = type(eo).__name__
+        want = 'arm' if iset == 'arm' else ('t16' if iset == 'thumb16' else 't32')
+        rows = [r for r in ENC.rows_for(kname) if r.iset == want]
+        instr = inputs['instr']
+        matching = [r for r in rows if r.match(instr)]
+        lines.append('decoder selected %s; table rows of that class: %s; rows matching the word: %d' % (
+            kname, [r.pattern for r in rows], len(matching)))
+        if kind == 'decode.class':
+            allm = [r.cls for r in ENC.TABLE.rows if r.iset == want and r.match(instr)]
+            lines.append('table rows matching the word: %s' % allm)
+            bad = bool(rows) and not matching
+        else:
+            st0 = dict(init)
+            cfgs = registry.mods().configurations.configurations.configs
+            for k in MC.CFG_BOOL + list(MC.CFG_INT):
+                st0['cfg.' + k] = cfgs.get(k)
+            bad = False
+            for r in matching:
+                exp, s_unpred, s_undef = SS.spec_step(r, st0, instr, 'arm' if iset == 'arm' else 'thumb', 16 if iset == 'thumb16' else 32)
+                if kind == 'post.unpred':
+                    lines.append('spec: UNDEFINED=%s ; real executed normally=%s' % (bool(s_undef), exc is None))
+                    bad = bad or (bool(s_undef) and exc is None)
+                    continue
+                if s_unpred or s_undef:
+                    lines.append('spec: architecturally %s for this input' % ('UNPREDICTABLE' if s_unpred else 'UNDEFINED'))
+                    continue
+                diff = {k: (_h(final[k]), _h(exp[k])) for k in final if k not in STEP.SCRATCH and final[k] != exp.get(k)}
+                lines.append('leaf differences (real, spec): %s' % diff)
+                bad = bad or bool(diff) or exc is not None or any('_set' in l for l in sc.log)
     elif kind == 'frame':
         bad = set(vars(cpu)) - {'mem_a_get', 'mem_u_get', 'mem_u_unpriv_get', 'mem_a_set', 'mem_u_set', 'mem_u_unpriv_set',
                                 'translate_address', 'alignment_fault', 'fetch_instruction'} != MC.KNOWN_CPU_ATTRS
